@@ -12,12 +12,24 @@ GenCfgsThorough ==
     [open : Open06, close : Close06, clear : BOOLEAN, filter : {NoFilter}]
       \cup [open : {0, 2, 3, 4}, close : {-1, 0, 3, 4, 5}, clear : BOOLEAN, filter : FAll \ {NoFilter}]
 
-GStatement(cfgs) ==
-    /\ status = "parse"
-    /\ cfg' \in cfgs
-    /\ inner' = NoInner
-    /\ status' = "compile"
-    /\ UNCHANGED <<ledger, pc, entries, report, tab, sub>>
+GStatement(cfgs) == Arrives(cfgs, {NoInner}, {ApiDoor})
+
+(* Entry points: the same statements given to the shell (typed at the prompt / on the command line) and run as named queries
+   of the ledger (.run, the query directive dated before, on, between and after the entry dates), on the ledgers with income,
+   expenses and a conversion on different dates: every clause subset, CLOSE bare / dated, a filter expression or none. *)
+GenDoors(name) ==
+    CASE name = "quick" ->
+            [cfgs |-> [open : Open03, close : Close04, clear : BOOLEAN, filter : {NoFilter, F("ge", 3)}]
+                        \cup [open : {0, 2, 5}, close : {-1, 3}, clear : BOOLEAN, filter : {NoFilter}],
+             doors |-> {ShellDoor, RunDoor(2), RunDoor(4), RunDoor(5)}]
+      [] name = "thorough" ->
+            [cfgs |-> [open : Open05, close : Close05, clear : BOOLEAN, filter : {NoFilter}]
+                        \cup [open : Open03, close : Close04, clear : BOOLEAN, filter : FAll \ {NoFilter}],
+             doors |-> {ShellDoor} \cup {RunDoor(q) : q \in 1..5}]
+DoorLedger(name, l) ==
+    CASE name = "quick" -> Len(l) = 3 /\ l[2].date = 3
+      [] name = "thorough" -> (Len(l) = 3 /\ l[1].date = 2 /\ l[3].date = 5) \/ Len(l) = 4
+GDoor(name) == DoorLedger(name, ledger) /\ Arrives(GenDoors(name).cfgs, {NoInner}, GenDoors(name).doors)
 
 (* Nested statements  ... FROM <clauses> WHERE account IN (SELECT account FROM <filter> <clauses>)  on the ledgers whose
    transactions differ in date and accounts.  Only the subqueries whose selection the statement determines (no clause: the
@@ -41,15 +53,9 @@ NestedLedger(name, l) ==
                            \/ Len(l) = 3 /\ l[2].date = 3 /\ l[1].ps = Templates[5]
       [] name = "thorough" -> \/ Len(l) = 2 /\ l[1].date = 2 /\ l[2].date = 5 /\ l[1].ps # l[2].ps
                               \/ Len(l) = 3 /\ l[1].date = 2 /\ l[2].date = 3 /\ l[3].date = 5
-GNested(name) ==
-    /\ status = "parse"
-    /\ NestedLedger(name, ledger)
-    /\ cfg' \in GenNested(name).cfgs
-    /\ inner' \in GenNested(name).inners
-    /\ status' = "compile"
-    /\ UNCHANGED <<ledger, pc, entries, report, tab, sub>>
-GNext == GStatement(GenCfgs) \/ GNested("quick") \/ (status # "parse" /\ Next)
-GNextThorough == GStatement(GenCfgsThorough) \/ GNested("thorough") \/ (status # "parse" /\ Next)
+GNested(name) == NestedLedger(name, ledger) /\ Arrives(GenNested(name).cfgs, GenNested(name).inners, {ApiDoor})
+GNext == GStatement(GenCfgs) \/ GNested("quick") \/ GDoor("quick") \/ (status # "parse" /\ Next)
+GNextThorough == GStatement(GenCfgsThorough) \/ GNested("thorough") \/ GDoor("thorough") \/ (status # "parse" /\ Next)
 
 \* ledgers for the replay (x 156 statements each in the quick grid, x 352 in the thorough one)
 GenLedgerSet(name) ==
@@ -79,16 +85,17 @@ Emit ==
             ledger |-> [i \in 1..Len(ledger) |-> [date |-> ledger[i].date, t |-> ledger[i].t, flag |-> ledger[i].flag,
                                                  ps |-> ledger[i].ps]],
             c |-> cfg,
+            door |-> door,
             sub |-> inner,
             status |-> status,
             kept |-> IF status # "done" THEN <<>>
-                     ELSE IF inner.on THEN CoreOut(ExpectKeptN(KeyTab, LP, cfg, inner.c)) ELSE CoreOut(ExpectKept(LP, cfg)),
-            cmp |-> SynthPass(cfg.filter) # "some",
+                     ELSE IF inner.on THEN CoreOut(ExpectKeptN(KeyTab, LP, W, inner.c)) ELSE CoreOut(ExpectKept(LP, W)),
+            cmp |-> SynthPass(W.filter) # "some",
             tot |-> IF status # "done" THEN <<>>
-                    ELSE IF inner.on THEN ExpectTotalsN(KeyTab, LP, cfg, inner.c) ELSE ExpectTotals(KeyTab, LP, cfg),
+                    ELSE IF inner.on THEN ExpectTotalsN(KeyTab, LP, W, inner.c) ELSE ExpectTotals(KeyTab, LP, W),
             \* the value at cost of the rows a WHERE clause picks is not determined (Equity rows are picked by account)
             val |-> IF status = "done" /\ ~inner.on
-                    THEN [i \in 1..Len(CurSeq) |-> <<CurSeq[i], ExpectValue(KeyTab, LP, cfg, CurSeq[i])>>]
+                    THEN [i \in 1..Len(CurSeq) |-> <<CurSeq[i], ExpectValue(KeyTab, LP, W, CurSeq[i])>>]
                     ELSE <<>>]))
 
 EmitKeys == status = status /\ PrintT(ToJson([keys |-> KeyTab, special |-> Special, curs |-> CurSeq, base |-> Base]))
